@@ -624,7 +624,7 @@ pub struct PolicyCase {
 pub fn policy_strategy() -> BoxedStrategy<PolicyCase> {
     (
         proptest::sample::select(vec![4usize, 8, 16, 64, 256, 1000]),
-        proptest::collection::vec((1u64..40, 1i64..12), 0..12),
+        proptest::collection::vec((1u64..40, prop_oneof![5 => 1i64..12, 1 => Just(0i64)]), 0..12),
         proptest::collection::vec(proptest::collection::vec(any::<u8>(), 0..10), 0..12),
         proptest::collection::vec((any::<u8>(), 1i64..30), 0..3),
         proptest::option::weighted(0.2, 1i64..60),
